@@ -109,6 +109,70 @@ func (w *faultWriter) Write(p []byte) (int, error) {
 	panic("unknown writer kind " + w.kind)
 }
 
+// Destination kinds: the same fault injection (kind, budget k) behind the optional interfaces a
+// writer may be asked for.  Every method counts towards the budget and fails like Write.
+type byteDest struct{ *faultWriter } // io.ByteWriter
+
+func (d byteDest) WriteByte(c byte) error {
+	_, err := d.faultWriter.Write([]byte{c})
+	return err
+}
+
+type stringDest struct{ *faultWriter } // io.StringWriter
+
+func (d stringDest) WriteString(s string) (int, error) { return d.faultWriter.Write([]byte(s)) }
+
+type readFromDest struct{ *faultWriter } // io.ReaderFrom
+
+func (d readFromDest) ReadFrom(r io.Reader) (int64, error) {
+	var total int64
+	buf := make([]byte, 512)
+	for {
+		n, err := r.Read(buf)
+		if n > 0 {
+			m, werr := d.faultWriter.Write(buf[:n])
+			total += int64(m)
+			if werr != nil {
+				return total, werr
+			}
+		}
+		if err == io.EOF {
+			return total, nil
+		}
+		if err != nil {
+			return total, err
+		}
+	}
+}
+
+// bufio-like: everything at once (ByteWriter, StringWriter, ReaderFrom, Flush, Available)
+type allDest struct {
+	byteDest
+	stringDest
+	readFromDest
+}
+
+func (d allDest) Write(p []byte) (int, error) { return d.byteDest.faultWriter.Write(p) }
+func (d allDest) Flush() error                { return nil }
+func (d allDest) Available() int              { return 4096 }
+
+// destOf wraps w according to dk: "" plain io.Writer, byte, string, readfrom, all
+func destOf(dk string, w *faultWriter) io.Writer {
+	switch dk {
+	case "byte":
+		return byteDest{w}
+	case "string":
+		return stringDest{w}
+	case "readfrom":
+		return readFromDest{w}
+	case "all":
+		return allDest{byteDest{w}, stringDest{w}, readFromDest{w}}
+	}
+	return w
+}
+
+var destKinds = []string{"byte", "string", "readfrom", "all"}
+
 // ---------------------------------------------------------------- sources
 
 type onlyReader struct{ r io.Reader }
@@ -1036,7 +1100,7 @@ func init() {
 			var n int64
 			var err error
 			var hasN bool
-			if pan := guard(func() string { n, err, hasN = call(w); return "" }); pan != "" {
+			if pan := guard(func() string { n, err, hasN = call(destOf(f["dk"], w)); return "" }); pan != "" {
 				sb.WriteString("PPP") // a panic instead of an error
 				continue
 			}
@@ -1127,6 +1191,44 @@ func countCases(c *Ctx, args string, total int, nontriv bool) {
 			}
 			for i := 0; i+3 <= len(out) && !strings.HasPrefix(out, "bad") && !strings.HasPrefix(out, "panic"); i += 3 {
 				c.Stat("count_predicate_"+kind, out[i:i+3])
+			}
+		}
+	}
+	// destinations offering optional interfaces (io.ByteWriter, io.StringWriter, io.ReaderFrom, all of
+	// them): the end of the output (the final padding), the start, and points spread over it; every k
+	// for small header.Write sets
+	set := map[int]bool{}
+	for k := max(0, total-8); k <= total+1; k++ {
+		set[k] = true
+	}
+	for j := 0; j <= 32; j++ {
+		set[total*j/32] = true
+		set[min(total+1, j)] = true
+	}
+	if strings.HasPrefix(args, "scaler=") && total <= 1500 {
+		for k := 0; k <= total+1; k++ {
+			set[k] = true
+		}
+	}
+	var kl []int
+	for k := range set {
+		kl = append(kl, k)
+	}
+	sort.Ints(kl)
+	for _, dk := range destKinds {
+		for _, kind := range honestKinds {
+			for a := 0; a < len(kl); a += faultBlock {
+				part := kl[a:min(a+faultBlock, len(kl))]
+				out := c.Case(Direct, "faults.count", fmt.Sprintf("%s total=%d w=%s dk=%s ks=%s", args, total, kind, dk, ints(part)), nontriv)
+				if strings.HasPrefix(out, "bad") || strings.HasPrefix(out, "panic") || len(out) != 3*len(part) {
+					continue
+				}
+				if i := strings.IndexAny(out, "#tP"); i >= 0 {
+					c.Case(Direct, "faults.count", fmt.Sprintf("%s total=%d w=%s dk=%s ks=%d", args, total, kind, dk, part[i/3]), nontriv)
+				}
+				for i := 0; i+3 <= len(out); i += 3 {
+					c.Stat("count_predicate_dest_"+dk, out[i:i+3])
+				}
 			}
 		}
 	}
